@@ -238,4 +238,11 @@ def check(F, run, tier):
     run.add(mapping_getters(F))
     run.add(tile_index_shape(F))
     run.add(dimensions(F, S))
+    # a bounds refusal guarding a subscript (however the lookup is packaged) refuses exactly the out-of-range indices
+    from ..rules_stream import subscript_guards_exact
+    o_, _n = subscript_guards_exact(F, S, ["/src/"])
+    run.add(o_)
+    fxg = [f for f in F.fixture_functions.values() if f.qn == "fixture::Entries::At"]
+    hitg = bool(fxg) and any(x.status == "violated" for x in subscript_guards_exact(F, S, [], functions=fxg)[0])
+    run.fixture("fixtures/raw_read.cpp: `if (index + 1 >= items.size()) throw` before items[index] is reported by R-GUARD", hitg)
     run.floor("obligations", len(run.obligations), 20)
